@@ -88,6 +88,8 @@ type PathState struct {
 	ufUsed     bool
 	assumedBad bool
 	choices    []WitVal
+	pending    []pendingAssert
+	lit        map[*Term]bool // literals known true/false on this path (syntactic)
 }
 
 type obsEntry struct {
@@ -112,6 +114,7 @@ type HarnessCfg struct {
 	EnumCap     int
 	MaxPaths    int
 	MaxViol     int
+	MaxWallS    float64
 }
 
 type Stats struct {
@@ -130,6 +133,7 @@ type Stats struct {
 	Funcs        map[string]bool
 	Stubs        map[string]int
 	MaxPathSteps int64
+	IfConverted  int
 }
 
 func newStats() *Stats {
@@ -168,6 +172,9 @@ type Engine struct {
 	symPtrMax   int
 	globalDirty bool
 	initPkgs    []string
+	spec        bool
+	qwhy        string
+	noIfConv    bool
 }
 
 type methKey struct {
@@ -190,10 +197,16 @@ func NewEngine(L *Loaded, solverBin string, timeoutMs int) *Engine {
 }
 
 func (e *Engine) endPath(k endKind, msg string) {
+	if e.spec {
+		panic(specAbort{})
+	}
 	panic(pathEnd{kind: k, msg: msg, site: e.site()})
 }
 
 func (e *Engine) inconclusive(reason string) {
+	if e.spec {
+		panic(specAbort{})
+	}
 	panic(pathEnd{kind: endInconclusive, msg: reason, site: e.site()})
 }
 
@@ -231,10 +244,51 @@ func (e *Engine) evalBool(t *Term) (bool, bool) {
 
 // sat checks pc ∧ extra. On sat, the model is fetched lazily by satModel.
 func (e *Engine) check(extra ...*Term) string {
+	if e.debug {
+		e.stats.Stubs["query@"+e.qwhy]++
+	}
 	q := make([]*Term, 0, len(e.p.pc)+len(extra))
 	q = append(q, e.p.pc...)
 	q = append(q, extra...)
 	return e.solver.Check(q)
+}
+
+// learn records the syntactic consequences of a literal being true.
+func (e *Engine) learn(c *Term, val bool) {
+	p := e.p
+	if p.lit == nil {
+		p.lit = map[*Term]bool{}
+	}
+	for depth := 0; depth < 8; depth++ {
+		if c.op == OpNot {
+			c, val = c.a[0], !val
+			continue
+		}
+		break
+	}
+	if c.IsConst() {
+		return
+	}
+	p.lit[c] = val
+	if c.op == OpAnd && val {
+		e.learn(c.a[0], true)
+		e.learn(c.a[1], true)
+	} else if c.op == OpOr && !val {
+		e.learn(c.a[0], false)
+		e.learn(c.a[1], false)
+	}
+}
+
+// litValue looks a condition up among the literals already known on this path.
+func (e *Engine) litValue(c *Term) (bool, bool) {
+	neg := false
+	for c.op == OpNot {
+		c, neg = c.a[0], !neg
+	}
+	if v, ok := e.p.lit[c]; ok {
+		return v != neg, true
+	}
+	return false, false
 }
 
 func (e *Engine) addPC(c *Term) {
@@ -244,6 +298,7 @@ func (e *Engine) addPC(c *Term) {
 		}
 		return
 	}
+	e.learn(c, true)
 	e.p.pc = append(e.p.pc, c)
 	if e.p.modelOK {
 		if v, ok := e.evalBool(c); !ok || !v {
@@ -257,7 +312,13 @@ func (e *Engine) branch(cond *Term) bool {
 	if cond.IsConst() {
 		return cond.val != 0
 	}
+	if e.spec {
+		panic(specAbort{})
+	}
 	p := e.p
+	if v, ok := e.litValue(cond); ok {
+		return v
+	}
 	idx := len(p.decisions)
 	if idx < len(p.prefix) {
 		d := p.prefix[idx]
@@ -268,15 +329,25 @@ func (e *Engine) branch(cond *Term) bool {
 		if d.choice == 0 {
 			if !d.forced {
 				e.addPC(cond)
+			} else {
+				e.learn(cond, true)
 			}
 			return true
 		}
 		if !d.forced {
 			e.addPC(e.ts.Not(cond))
+		} else {
+			e.learn(cond, false)
 		}
 		return false
 	}
+	e.flushAsserts()
 	e.stats.Decisions++
+	e.qwhy = "branch"
+	if e.debug {
+		e.stats.Stubs["branchsite@"+e.site()+" "+e.p.stack[len(e.p.stack)-1].String()]++
+	}
+	defer func() { e.qwhy = "" }()
 	// determine feasibility of both sides
 	var tF, fF bool
 	if v, ok := e.evalBool(cond); ok {
@@ -321,11 +392,15 @@ func (e *Engine) branch(cond *Term) bool {
 	if d.choice == 0 {
 		if !d.forced {
 			e.addPC(cond)
+		} else {
+			e.learn(cond, true)
 		}
 		return true
 	}
 	if !d.forced {
 		e.addPC(e.ts.Not(cond))
+	} else {
+		e.learn(cond, false)
 	}
 	return false
 }
@@ -334,6 +409,9 @@ func (e *Engine) branch(cond *Term) bool {
 func (e *Engine) choose(n int) int {
 	if n <= 1 {
 		return 0
+	}
+	if e.spec {
+		panic(specAbort{})
 	}
 	p := e.p
 	idx := len(p.decisions)
@@ -345,6 +423,7 @@ func (e *Engine) choose(n int) int {
 		p.decisions = append(p.decisions, d)
 		return d.choice
 	}
+	e.flushAsserts()
 	e.stats.Decisions++
 	d := Decision{kind: DecChoose, n: n, choice: 0}
 	p.decisions = append(p.decisions, d)
@@ -356,6 +435,9 @@ func (e *Engine) choose(n int) int {
 func (e *Engine) concretize(t *Term, cap int) (uint64, bool) {
 	if t.IsConst() {
 		return t.val, true
+	}
+	if e.spec {
+		panic(specAbort{})
 	}
 	p := e.p
 	idx := len(p.decisions)
@@ -372,7 +454,13 @@ func (e *Engine) concretize(t *Term, cap int) (uint64, bool) {
 		e.addPC(e.ts.Eq(t, e.ts.Const(t.w, v)))
 		return v, true
 	}
+	e.flushAsserts()
 	e.stats.Decisions++
+	e.qwhy = "enum"
+	if e.debug {
+		e.stats.Stubs["enumsite@"+e.site()+" "+e.p.stack[len(e.p.stack)-1].String()]++
+	}
+	defer func() { e.qwhy = "" }()
 	var vals []uint64
 	var block []*Term
 	overflow := false
@@ -491,6 +579,10 @@ func (e *Engine) activeKnown() []knownPred {
 // reportViolation is called with extra constraints describing the violating states
 // (pc ∧ extra is believed satisfiable). It separates known findings from new ones.
 func (e *Engine) reportViolation(kind, label string, extra ...*Term) bool {
+	return e.reportViolationAt(kind, label, e.site(), e.stackStrings(), extra...)
+}
+
+func (e *Engine) reportViolationAt(kind, label, site string, stack []string, extra ...*Term) bool {
 	known := e.activeKnown()
 	neg := append([]*Term(nil), extra...)
 	for _, k := range known {
@@ -499,8 +591,8 @@ func (e *Engine) reportViolation(kind, label string, extra ...*Term) bool {
 	r := e.check(neg...)
 	if r == "sat" {
 		m := e.solver.Model()
-		v := &Violation{Kind: kind, Label: label, Site: e.site(), Harness: e.cfg.Name, Params: e.cfg.Params,
-			Values: e.witnessValues(m), Stack: e.stackStrings()}
+		v := &Violation{Kind: kind, Label: label, Site: site, Harness: e.cfg.Name, Params: e.cfg.Params,
+			Values: e.witnessValues(m), Stack: stack}
 		e.violations = append(e.violations, v)
 		return true
 	}
@@ -520,13 +612,66 @@ func (e *Engine) reportViolation(kind, label string, extra ...*Term) bool {
 	return found
 }
 
+type pendingAssert struct {
+	cond  *Term
+	label string
+	site  string
+	stack []string
+}
+
+// assert records an obligation. Obligations met while replaying the decision prefix were
+// already decided on an earlier path under the identical path condition and are skipped;
+// the others are batched and decided by flushAsserts before the path condition changes.
 func (e *Engine) assert(cond *Term, label string) {
+	p := e.p
+	if len(p.decisions) < len(p.prefix) {
+		return
+	}
 	e.stats.AssertsTotal++
 	if cond.IsConst() && cond.val != 0 {
 		e.stats.AssertsConst++
 		e.stats.AssertsUnsat++
 		return
 	}
+	p.pending = append(p.pending, pendingAssert{cond: cond, label: label, site: e.site(), stack: e.stackStrings()})
+	if cond.IsConst() || len(p.pending) >= 64 {
+		e.flushAsserts()
+	}
+}
+
+func (e *Engine) flushAsserts() {
+	p := e.p
+	if len(p.pending) == 0 {
+		return
+	}
+	pend := p.pending
+	p.pending = nil
+	e.qwhy = "assert"
+	defer func() { e.qwhy = "" }()
+	conj := e.ts.True
+	for _, a := range pend {
+		conj = e.ts.And(conj, a.cond)
+	}
+	if conj == e.ts.True {
+		e.stats.AssertsUnsat += len(pend)
+		return
+	}
+	if len(pend) > 1 {
+		if v, ok := e.evalBool(conj); !(ok && !v) {
+			r := e.check(e.ts.Not(conj))
+			if r == "unsat" {
+				e.stats.AssertsUnsat += len(pend)
+				return
+			}
+		}
+	}
+	for _, a := range pend {
+		e.assertNow(a)
+	}
+}
+
+func (e *Engine) assertNow(a pendingAssert) {
+	cond := a.cond
 	ncond := e.ts.Not(cond)
 	if v, ok := e.evalBool(cond); ok && !v {
 		// model already violates
@@ -546,7 +691,7 @@ func (e *Engine) assert(cond *Term, label string) {
 		q := append(append([]*Term(nil), e.p.pc...), ncond)
 		e.lastAssertDump = append(e.lastAssertDump, e.solver.Dump(q))
 	}
-	e.reportViolation("assert", label, ncond)
+	e.reportViolationAt("assert", a.label, a.site, a.stack, ncond)
 	if e.cfg.MaxViol > 0 && len(e.violations) >= e.cfg.MaxViol {
 		e.endPath(endStop, "violation limit")
 	}
@@ -560,6 +705,10 @@ func (e *Engine) assert(cond *Term, label string) {
 // programPanic is called when the interpreted program panics (the failing condition has
 // already been added to the path condition).
 func (e *Engine) programPanic(msg string) {
+	if e.spec {
+		panic(specAbort{})
+	}
+	e.flushAsserts()
 	if e.cfg.PanicIsViol {
 		e.reportViolation("panic", msg)
 	}
